@@ -83,6 +83,10 @@ def _numeric_layouts():
     return out
 
 
+# set by contracts.c_frontend while it re-states these contracts through the English front end
+KERNEL_PARSE = None
+
+
 def _two_runs(parse):
     def run2(s, a, b):
         def one(st):
@@ -162,7 +166,7 @@ class strictness_only_filters:
             if "H" in f:
                 cs.append(And(f["H"] <= 23, f["T"] <= 59))
             valid = And(*cs) if cs else True
-        return _two_runs(_parser.parse), (s, strict, off), {}, dict(parts=parts, valid=valid)
+        return _two_runs(KERNEL_PARSE or _parser.parse), (s, strict, off), {}, dict(parts=parts, valid=valid)
 
     @staticmethod
     def post(case, g, out):
@@ -220,7 +224,7 @@ class strict_result_independent_of_now:
         a = make_settings(RELATIVE_BASE=n1, **kw)
         b = make_settings(RELATIVE_BASE=n2, **kw)
         s, f = build(inp, tpl)
-        return _two_runs(_parser.parse), (s, a, b), {}, {}
+        return _two_runs(KERNEL_PARSE or _parser.parse), (s, a, b), {}, {}
 
     @staticmethod
     def post(case, g, out):
@@ -318,7 +322,7 @@ class two_token_now_independence:
         a = make_settings(RELATIVE_BASE=n1, **kw)
         b = make_settings(RELATIVE_BASE=n2, **kw)
         s, f = build(inp, strict_needs_three_tokens.TWO[case["family"]])
-        return _two_runs(_parser.parse), (s, a, b), {}, {}
+        return _two_runs(KERNEL_PARSE or _parser.parse), (s, a, b), {}, {}
 
     @staticmethod
     def post(case, g, out):
